@@ -116,6 +116,7 @@ func (a tokSet) meets(b tokSet) bool {
 
 type ownState struct {
 	p       *core.Program
+	recv    types.Object // the method's receiver (fields of it outlive the call)
 	places  map[string]tokSet // "v:<objptr>" or "*v:<objptr>"
 	freed   tokSet
 	freedAt map[int]token.Pos
@@ -172,6 +173,14 @@ func (s *ownState) eval(e ast.Expr, read bool) tokSet {
 			if o := s.p.ObjectOf(id); o != nil {
 				out = s.places[placeKey(o, true)]
 			}
+		}
+	case *ast.SelectorExpr:
+		// a slice-typed field of the receiver: it outlives the call
+		if k, ok := s.recvField(x); ok {
+			if _, seen := s.places[k]; !seen {
+				s.places[k] = s.fresh("the receiver's field " + x.Sel.Name)
+			}
+			out = s.places[k]
 		}
 	case *ast.SliceExpr:
 		out = s.eval(x.X, read)
@@ -262,7 +271,25 @@ func (s *ownState) assign(lhs ast.Expr, toks tokSet) {
 				s.places[placeKey(o, true)] = toks
 			}
 		}
+	case *ast.SelectorExpr:
+		if k, ok := s.recvField(x); ok {
+			s.places[k] = toks
+		}
 	}
+}
+
+// recvField recognises `recv.f` where recv is the method's receiver and f a slice-typed field.
+func (s *ownState) recvField(x *ast.SelectorExpr) (string, bool) {
+	id, ok := ast.Unparen(x.X).(*ast.Ident)
+	if !ok || s.recv == nil || s.p.ObjectOf(id) != s.recv {
+		return "", false
+	}
+	if t := s.p.TypeOf(x); t != nil {
+		if _, isSl := t.Underlying().(*types.Slice); isSl {
+			return "field:" + x.Sel.Name, true
+		}
+	}
+	return "", false
 }
 
 // step interprets one CFG node.
@@ -356,6 +383,20 @@ func (s *ownState) step(n ast.Node, fd *ast.FuncDecl, ptrParams []types.Object) 
 }
 
 func (s *ownState) exit(pos token.Pos, ptrParams []types.Object) {
+	var fks []string
+	for k := range s.places {
+		if strings.HasPrefix(k, "field:") {
+			fks = append(fks, k)
+		}
+	}
+	sort.Strings(fks)
+	for _, k := range fks {
+		for t := range s.places[k] {
+			if s.freed[t] {
+				s.viol = append(s.viol, ownViol{"O2", pos, "on return the receiver's field `" + strings.TrimPrefix(k, "field:") + "` still aliases " + s.names[t] + ", which was returned to the pool at " + s.p.Pos(s.freedAt[t]) + ": the object keeps using a buffer another user of the pool may be handed"})
+			}
+		}
+	}
 	for _, pp := range ptrParams {
 		for t := range s.places[placeKey(pp, true)] {
 			if s.freed[t] {
@@ -422,7 +463,7 @@ func analyseOwn(p *core.Program) []ownResult {
 			}
 			seen := map[string]bool{}
 			for _, pt := range paths {
-				st := &ownState{p: p, places: map[string]tokSet{}, freed: tokSet{}, freedAt: map[int]token.Pos{}, names: map[int]string{}}
+				st := &ownState{p: p, recv: recvObj(p, fd), places: map[string]tokSet{}, freed: tokSet{}, freedAt: map[int]token.Pos{}, names: map[int]string{}}
 				for _, pp := range ptrParams {
 					st.places[placeKey(pp, true)] = st.fresh("the caller's *" + pp.Name())
 				}
